@@ -97,7 +97,7 @@ func TestVerifC11Server(t *testing.T) {
 				json.Unmarshal([]byte(body), &m)
 				p := m.Programs[rnd.Intn(len(m.Programs))]
 				what := ""
-				switch rnd.Intn(8) {
+				switch rnd.Intn(11) {
 				case 0:
 					p.GOOS, what = "plan9x", "goos"
 				case 1:
@@ -120,6 +120,49 @@ func TestVerifC11Server(t *testing.T) {
 					}
 					p.Counters[verifrt.Pick(rnd, []string{"flag:", "flag:{v,x,json}", "flag:nope", "editor/opens "})] = 1
 					what = "bucket-near-miss"
+				case 7, 8:
+					// an item the configuration approves for this program, but in the other
+					// map: a stack counter's name (with frames) among the plain counters
+					var pc *verifref.ProgramConfig
+					for _, c := range cs.Config.Programs {
+						if c.Name == p.Program {
+							pc = c
+						}
+					}
+					if pc == nil || len(pc.Stacks) == 0 {
+						continue
+					}
+					n := pc.Stacks[rnd.Intn(len(pc.Stacks))].Name + "\nmain.main:+1,+0x1"
+					if _, listed := cs.Config.CounterRate(p.Program, n); listed {
+						continue
+					}
+					if p.Counters == nil {
+						p.Counters = map[string]int64{}
+					}
+					p.Counters[n] = 1
+					what = "stack-among-counters"
+				case 9:
+					// ... or a plain counter among the stacks
+					var names []string
+					for _, c := range cs.Config.Programs {
+						if c.Name == p.Program {
+							for _, cc := range c.Counters {
+								names = append(names, verifref.ExpandBuckets(cc.Name)...)
+							}
+						}
+					}
+					if len(names) == 0 {
+						continue
+					}
+					n := names[rnd.Intn(len(names))]
+					if _, listed := cs.Config.StackRate(p.Program, n); listed || strings.Contains(n, "\n") {
+						continue
+					}
+					if p.Stacks == nil {
+						p.Stacks = map[string]int64{}
+					}
+					p.Stacks[n] = 1
+					what = "counter-among-stacks"
 				default:
 					if p.Stacks == nil {
 						p.Stacks = map[string]int64{}
@@ -153,7 +196,7 @@ func TestVerifC11Server(t *testing.T) {
 		e.close()
 	}
 	res.Sample(map[string]any{"source": "cases.jsonl from the uploader leg"})
-	res.Require("uploader-report-accepted", "spliced:goos", "spliced:counter", "spliced:stack")
+	res.Require("uploader-report-accepted", "spliced:goos", "spliced:counter", "spliced:stack", "spliced:stack-among-counters", "spliced:counter-among-stacks")
 	if err := res.Write(); err != nil {
 		t.Fatal(err)
 	}
